@@ -532,3 +532,78 @@ pub fn alloc_sys(atomic: bool, pool: usize, origin: u32) -> Box<dyn Sys> {
     macro_rules! go { ($N:literal) => { if atomic { Box::new(AllocSys::<AllocatorAtomicArray<u32, $N>>::new($N, origin)) as Box<dyn Sys> } else { Box::new(AllocSys::<AllocatorFullSyncArray<u32, $N>>::new($N, origin)) as Box<dyn Sys> } } }
     match pool { 2 => go!(2), 4 => go!(4), _ => panic!("alloc_sys: pool {pool}") }
 }
+
+// ------------------------------------------------------------------------------------------------ raw movable rings with a payload that has a destructor
+
+/// `push` / `pop` / `teardown` (last operation) on a raw movable ring whose elements have a destructor: the teardown must destroy
+/// exactly the elements still enqueued, each once (C15: whatever the sequence origin).
+pub struct DropRingSys<R> { ring: Option<R>, cap: usize, fifo: VecDeque<u32>, sends: u32, table: crate::c05core::SharedTable, finished: Vec<u32> }
+pub trait DropRing: Sized { fn mk() -> Self; fn push(&self, v: crate::c05core::Tr) -> bool; fn pop(&self) -> Option<crate::c05core::Tr>; }
+use reactive_mutiny::ogre_std::ogre_queues::{atomic::atomic_move as _am, full_sync::full_sync_move as _fm};
+impl<const N: usize> DropRing for _am::AtomicMove<crate::c05core::Tr, N> {
+    fn mk() -> Self { <Self as reactive_mutiny::ogre_std::ogre_queues::meta_container::MoveContainer<crate::c05core::Tr>>::new() }
+    fn push(&self, v: crate::c05core::Tr) -> bool { use reactive_mutiny::ogre_std::ogre_queues::meta_publisher::MovePublisher; self.publish_movable(v).0.is_some() }
+    fn pop(&self) -> Option<crate::c05core::Tr> { use reactive_mutiny::ogre_std::ogre_queues::meta_subscriber::MoveSubscriber; self.consume_movable() }
+}
+impl<const N: usize> DropRing for _fm::FullSyncMove<crate::c05core::Tr, N> {
+    fn mk() -> Self { <Self as reactive_mutiny::ogre_std::ogre_queues::meta_container::MoveContainer<crate::c05core::Tr>>::new() }
+    fn push(&self, v: crate::c05core::Tr) -> bool { use reactive_mutiny::ogre_std::ogre_queues::meta_publisher::MovePublisher; self.publish_movable(v).0.is_some() }
+    fn pop(&self) -> Option<crate::c05core::Tr> { use reactive_mutiny::ogre_std::ogre_queues::meta_subscriber::MoveSubscriber; self.consume_movable() }
+}
+impl<R: DropRing> DropRingSys<R> {
+    pub fn new(cap: usize, origin: u32) -> Self {
+        verif::set_sequence_origin(origin);
+        let ring = R::mk();
+        verif::set_sequence_origin(0);
+        DropRingSys { ring: Some(ring), cap, fifo: VecDeque::new(), sends: 0, table: Arc::new(std::sync::Mutex::new(crate::c05core::Table::default())), finished: Vec::new() }
+    }
+    fn judge(&self, op: &str) -> Result<(), Bad> {
+        let t = self.table.lock().unwrap();
+        if let Some(b) = t.bad.first() { return Err(("bad-destructor".into(), format!("after {op}: {b}"))) }
+        for id in &self.fifo { if t.dropped.get(id).copied().unwrap_or(0) != 0 { return Err(("destroyed-while-enqueued".into(), format!("after {op}: element {id} is still enqueued but its destructor ran"))) } }
+        for id in &self.finished { let d = t.dropped.get(id).copied().unwrap_or(0); if d != 1 { return Err((if d == 0 { "never-destroyed" } else { "destroyed-twice" }.into(), format!("after {op}: element {id} left the ring (or the ring is gone), its destructor ran {d} time(s)"))) } }
+        Ok(())
+    }
+}
+impl<R: DropRing> Sys for DropRingSys<R> {
+    fn enabled(&self) -> Vec<String> { if self.ring.is_some() { vec!["push".into(), "pop".into(), "teardown".into()] } else { Vec::new() } }
+    fn apply(&mut self, choice: usize) -> Result<String, Bad> {
+        let obs;
+        match choice {
+            0 => {
+                // ids are never reused within a history (histories are short)
+                let id = 1 + self.sends;
+                let ok = self.ring.as_ref().unwrap().push(crate::c05core::Tr::new(id, &self.table));
+                let full = self.fifo.len() >= self.cap;
+                if ok != !full { return Err((if ok { "accepted-beyond-capacity" } else { "rejected-with-room" }.into(), format!("push of {id} {} with {} of {} elements enqueued", if ok { "accepted" } else { "rejected" }, self.fifo.len(), self.cap))) }
+                self.sends += 1;
+                // a rejected element is handed back and dropped by the caller
+                if ok { self.fifo.push_back(id) } else { self.finished.push(id) }
+                obs = format!("push {id} -> {}", if ok { "ok" } else { "full" });
+            }
+            1 => {
+                let got = self.ring.as_ref().unwrap().pop();
+                let want = self.fifo.pop_front();
+                let got_id = match &got { Some(t) => Some(t.read().map_err(|e| ("delivered-destroyed".to_string(), e))?), None => None };
+                if got_id != want { return Err(("wrong-element".into(), format!("pop answered {:?} where {:?} was next", got_id, want))) }
+                drop(got);
+                if let Some(id) = want { self.finished.push(id) }
+                obs = format!("pop -> {:?}", got_id);
+            }
+            _ => {
+                let left = self.fifo.len();
+                drop(self.ring.take());
+                self.finished.extend(self.fifo.drain(..));
+                let dropped = { let t = self.table.lock().unwrap(); self.finished.iter().rev().take(left).filter(|id| t.dropped.get(id).copied().unwrap_or(0) == 1).count() };
+                obs = format!("teardown with {left} leftovers -> {dropped} destroyed");
+            }
+        }
+        self.judge(&obs)?;
+        Ok(obs)
+    }
+    fn key(&self) -> Vec<u64> { let mut k = vec![self.ring.is_some() as u64, self.sends as u64]; k.extend(self.fifo.iter().map(|v| *v as u64)); k }
+}
+pub fn drop_ring_sys(atomic: bool, n: usize, origin: u32) -> Box<dyn Sys> {
+    macro_rules! go { ($N:literal) => { if atomic { Box::new(DropRingSys::<_am::AtomicMove<crate::c05core::Tr, $N>>::new($N, origin)) as Box<dyn Sys> } else { Box::new(DropRingSys::<_fm::FullSyncMove<crate::c05core::Tr, $N>>::new($N, origin)) as Box<dyn Sys> } } }
+    match n { 2 => go!(2), 4 => go!(4), _ => panic!("drop_ring_sys: size {n}") }
+}
